@@ -1,7 +1,7 @@
 package main
 
 // Rules added after the first rounds of independently seeded changes: each closes a gap a
-// seeded change showed (see DESIGN.md §5.4 and seeded/MATRIX.md).
+// seeded change showed (see DESIGN.md §7 and seeded/MATRIX.md).
 
 import (
 	"fmt"
@@ -13,7 +13,7 @@ import (
 
 func init() {
 	registry["C07"].Rules = append(registry["C07"].Rules,
-		Rule{Name: "C07-R6-receive-after-tcpup", Doc: "in every transport bring-up path the goroutine that reads and dispatches inbound frames is launched only after rt.TCPUp returned: a Select.req (and data pipelined behind it) can never be dispatched while the state is still NotConnected, where the synchronous Selected commit would fail and the data be rejected", Run: c07ReceiveAfterTCPUp})
+		Rule{Name: "C07-R7-receive-after-tcpup", Doc: "in every transport bring-up path the goroutine that reads and dispatches inbound frames is launched only after rt.TCPUp returned: a Select.req (and data pipelined behind it) can never be dispatched while the state is still NotConnected, where the synchronous Selected commit would fail and the data be rejected", Run: c07ReceiveAfterTCPUp})
 	registry["C10"].Rules = append(registry["C10"].Rules,
 		Rule{Name: "C10-R7-late-socket-closed", Doc: "transport.Stop re-reads the connection field after it joined the accept goroutine (the only asynchronous writer of that field) and closes what it finds: a peer adopted while Stop was closing the listener is not left open", Run: c10LateSocket})
 	registry["C10"].Rules = append(registry["C10"].Rules,
@@ -35,7 +35,7 @@ func init() {
 }
 
 func c07ReceiveAfterTCPUp(r *Run) {
-	const rule = "C07-R6-receive-after-tcpup"
+	const rule = "C07-R7-receive-after-tcpup"
 	w := r.W
 	n := 0
 	for _, pkg := range []string{"hsmsss", "secs1"} {
